@@ -58,7 +58,8 @@ static void run_case(CaseCtx& c)
     c.obs.params.i("nr", grid.nr()).i("ntheta", grid.ntheta()).i("levels", nlev);
     c.obs.info.i("iterations", its).num("reported_reduction_factor", rho);
     const bool in_rate_set = grid.nr() >= 17 && grid.ntheta() >= 32 && cfg.extrapolation != 2;
-    std::string cls = std::string("ex") + std::to_string(cfg.extrapolation) + "/" + (cfg.cycle == 0 ? "V" : (cfg.cycle == 1 ? "W" : "F")) + (cfg.fmg ? "/fmg" : "/nofmg") + "/" + prob_name(cfg.ps.prob) + "/" + geom_name(cfg.ps.geom);
+    std::string cls = std::string("ex") + std::to_string(cfg.extrapolation) + "/" + (cfg.cycle == 0 ? "V" : (cfg.cycle == 1 ? "W" : "F")) + (cfg.fmg ? "/fmg" : "/nofmg") +
+                      (cfg.pre == 1 && cfg.post == 1 ? "/s11" : "/s-more") + (cfg.dirbc ? "/dirbc" : "/across") + (cfg.R0 >= 0.05 ? "/annulus" : "/disk") + "/" + prob_name(cfg.ps.prob) + "/" + geom_name(cfg.ps.geom);
 
     bool finite = true;
     const Vector<double>& u = g->solution();
@@ -66,14 +67,35 @@ static void run_case(CaseCtx& c)
         finite = finite && std::isfinite(u[k]);
     c.obs.require("solution_finite", finite, cls);
 
+    // Is the requested tolerance above the rounding floor of a residual evaluation, eps * || |A||u| + |f| || ? (A relative
+    // tolerance of 1e-10 on an already tiny FMG start residual, or R0 = 1e-8 with entries ~1/R0, can sit below it; such a
+    // tolerance cannot be met by any iteration and the case is not judged for convergence.)
+    IndepResidual ir(grid, cfg.ps, cfg.dirbc, cfg.extrapolation);
+    bool achievable = true;
+    ld floor_x1000 = 0;
+    {
+        std::vector<ld> Au, absAu;
+        ir.A->apply(u, Au, &absAu);
+        std::vector<ld> sc(absAu.size());
+        for (size_t k = 0; k < sc.size(); k++)
+            sc[k] = absAu[k] + fabsl(ir.f[k]);
+        ld floor_abs = 1e3L * 2.2e-16L * 2.0L * IndepResidual::norm(sc, cfg.norm);
+        Vector<double> z(n);
+        assign(z, 0.0);
+        ld n0 = IndepResidual::norm(ir.residual(z), cfg.norm); // zero-start residual as the reference magnitude
+        bool rel_ok = cfg.rel_tol > 0 && (ld)cfg.rel_tol * n0 >= floor_abs && !cfg.fmg;
+        bool abs_ok = cfg.abs_tol > 0 && (ld)cfg.abs_tol >= floor_abs;
+        achievable  = rel_ok || abs_ok;
+        floor_x1000 = floor_abs;
+        c.obs.info.num("rounding_floor_x1000", (double)floor_abs).b("tolerance_achievable", achievable);
+    }
     // (1) converges within the budget with a mean reduction factor below one
-    if (in_rate_set) {
+    if (in_rate_set && achievable) {
         c.obs.require("converged_within_budget", its < cfg.maxIterations, cls);
         if (its > 0)
             c.obs.check("mean_reduction_factor", rho, cls);
     }
     // (2) a reported stop is true: recompute the stop quantity independently
-    IndepResidual ir(grid, cfg.ps, cfg.dirbc, cfg.extrapolation);
     std::vector<ld> r_final = ir.residual(u);
     ld nrm = IndepResidual::norm(r_final, cfg.norm);
     // start vector: zero, or the FMG start from a twin object that runs no iteration
@@ -102,7 +124,8 @@ static void run_case(CaseCtx& c)
             best = std::min(best, 1.0 / cfg.rel_tol); // relative norm of the start is 1 by definition
         c.obs.check("stop_is_true", best, cls + "/" + (cfg.norm == 0 ? "l2" : (cfg.norm == 1 ? "weighted" : "inf")));
         // (3) the reported mean reduction factor describes this solve
-        if (its > 0 && nrm0 > 0 && nrm > 0) {
+        // (only where the final residual is well above the rounding floor of its own evaluation)
+        if (its > 0 && nrm0 > 0 && nrm > floor_x1000) {
             double indep_rho = std::pow((double)(nrm / nrm0), 1.0 / its);
             c.obs.check("reported_factor_vs_independent", std::fabs(rho - indep_rho) / indep_rho, cls);
         }
